@@ -658,8 +658,10 @@ impl SolarMonth {
   pub fn get_days(&self) -> Vec<SolarDay> {
     let y: isize = self.get_year();
     let mut l: Vec<SolarDay> = Vec::new();
-    for i in 1..self.get_day_count() + 1 {
-      l.push(SolarDay::from_ymd(y, self.month, i));
+    let first_day: SolarDay = SolarDay::from_ymd(y, self.month, 1);
+    for i in 0..self.get_day_count() {
+      // 按天推移，1582年10月只有21天（5日至14日不存在）
+      l.push(first_day.next(i as isize));
     }
     l
   }
